@@ -320,6 +320,28 @@ int cmdRun(int argc, char** argv) {
 // with one later field set as well. A setting counts when the sequence of (kind, size) the reader asks for is one not seen
 // before for that (type, version): the values that steer the layout of a block (enumerations, flags, "no string"). The
 // settings found are extra configurations of the round-trip machine.
+// c01-probe1 <type> <version> <field>: what the sweep sees for each value of one field (diagnostic)
+int cmdProbe1(int argc, char** argv) {
+	if (argc < 4) return 2;
+	uint64_t seed = seedFromEnv();
+	for (long long x = -1; x <= 21; x++) {
+		SynthInfo si;
+		si.wantRoundTrip = true;
+		NifFile nif;
+		std::vector<std::pair<int, long long>> ov;
+		if (x >= 0) ov.emplace_back(atoi(argv[3]), x);
+		bool ok = false;
+		try {
+			ok = synthFileOv(nif, argv[1], argv[2], 2, seed, ov, &si);
+		}
+		catch (...) {
+		}
+		printf("value %lld ok=%d transfers=%zu served=%zu exact=%llx signature=%llx roundTrip=%d\n", x, ok, si.ncodes, si.served.size(), (unsigned long long) si.exact,
+			   (unsigned long long) si.tape, si.roundTrip);
+	}
+	return 0;
+}
+Reg rp1("c01-probe1", cmdProbe1);
 int cmdProbe(int argc, char** argv) {
 	if (argc < 3) return 2;
 	std::string outPath = argv[1];
@@ -371,6 +393,7 @@ int cmdProbe(int argc, char** argv) {
 							};
 							size_t unstable = 0;
 							std::vector<std::vector<std::pair<int, long long>>> cands; // new-layout settings in discovery order
+							std::vector<std::vector<std::pair<int, long long>>> selectors; // ... those of a single selector field
 							auto emit = [&](const std::vector<std::pair<int, long long>>& ov, const char* why) {
 								JArr a;
 								for (auto& q : ov) {
@@ -388,13 +411,31 @@ int cmdProbe(int argc, char** argv) {
 							};
 							std::vector<Found> level1;
 							size_t n1 = std::min<size_t>(base.scalarKinds.size(), 40);
+							std::set<uint64_t> seenExact;
+							seenExact.insert(base.exact);
 							for (size_t k = 0; k < n1; k++) {
 								if (!sweepable(base.scalarKinds[k])) continue;
+								// a selector or a count? With a count the reader asks for more with every step; with a selector
+								// (shader type, motor type, ...) every value whose exact sequence of transfers is new counts, also
+								// when it is made of the same kinds of pieces as another value's
+								std::vector<std::pair<long long, SynthInfo>> got;
 								for (auto x : valuesOf(base.scalarKinds[k])) {
 									SynthInfo si;
+									if (probe({{int(k), x}}, si)) got.emplace_back(x, si);
+								}
+								bool countLike = false;
+								{
+									std::map<long long, size_t> len;
+									for (auto& g : got) len[g.first] = g.second.ncodes;
+									if (len.count(1) && len.count(2) && len.count(3) && len.count(4))
+										countLike = len[1] < len[2] && len[2] < len[3] && len[3] < len[4];
+								}
+								for (auto& g : got) {
+									long long x = g.first;
+									SynthInfo& si = g.second;
 									std::vector<std::pair<int, long long>> ov = {{int(k), x}};
-									if (!probe(ov, si)) continue;
 									bool fresh = seen.insert(si.tape).second;
+									if (!countLike && seenExact.insert(si.exact).second) fresh = true;
 									if (si.roundTrip == 1 && unstable < 40) {
 										// what the library wrote for this instance does not re-encode to itself: always a configuration
 										unstable++;
@@ -404,7 +445,7 @@ int cmdProbe(int argc, char** argv) {
 									}
 									if (!fresh) continue;
 									level1.push_back({ov, si.scalarKinds});
-									cands.push_back(ov);
+									(countLike ? cands : selectors).push_back(ov);
 								}
 							}
 							// second level: one later field on top of each first-level setting
@@ -433,13 +474,18 @@ int cmdProbe(int argc, char** argv) {
 							}
 							// under a cap: an even spread over the settings (fields and values), starting at a different one in
 							// every version so that the versions of a type cover different settings between them
-							if (!cap || cands.size() <= cap) {
-								for (auto& c : cands) emit(c, "new layout");
-							}
-							else {
-								size_t stride = (cands.size() + cap - 1) / cap;
-								for (size_t j = vi % stride; j < cands.size(); j += stride) emit(cands[j], "new layout");
-							}
+							// (half of the cap goes to the selector values, which come first)
+							auto spread = [&](std::vector<std::vector<std::pair<int, long long>>>& v, size_t room) {
+								if (!room || v.size() <= room) {
+									for (auto& c : v) emit(c, "new layout");
+									return v.size();
+								}
+								size_t stride = (v.size() + room - 1) / room, cnt = 0;
+								for (size_t j = vi % stride; j < v.size(); j += stride, cnt++) emit(v[j], "new layout");
+								return cnt;
+							};
+							size_t usedBySel = spread(selectors, cap ? std::max<size_t>(1, cap / 2) : 0);
+							spread(cands, cap ? (cap > usedBySel ? cap - usedBySel : 1) : 0);
 							(void) kept;
 							vi++;
 						}
